@@ -332,7 +332,7 @@ RULE_ADDENDA = {
     "C01": "Also generated: hook answers carrying a status stanza / own annotations / echoed observed annotations; discovery order; debug-verbosity logging; a matching orphan appearing under a replicated child name; scale-to-zero, foreign re-creation, scale back.",
     "C02": "Also generated: desired children carrying a plain owner or a foreign controller reference; an edit of the parent selector (hook following) between syncs; writes to objects the same sync released are judged separately from the known ownership-transfer finding. Adoption edits are legal only inside a namespaced parent's own namespace; namespaced parents that also declare a cluster-scoped child kind.",
     "C03": "Also generated: an ignored spec.selector on parents of generateSelector controllers; hook-set annotations; discovery order. A declared child kind hidden from discovery for one sync; the parent deleted while the parent cache is stale. A separate job on the real start-up path: a restarted controller whose child LIST is held back for 120-400 ms (thorough: also 11 s) must show every sync-hook call the complete set of existing children.",
-    "C04": "Also generated: the parent replaced by an object with another selector; an owned child relabelled; a co-owner reference added to the object of a chosen request right before it. Negative-only selectors with unlabeled children; a 503 on the fresh parent read before an adoption. Orphaned children and ControllerRevisions that are terminating (held by a finalizer). Obligation side of release: after a succeeded sync of a live parent with a current cache no observed owned-but-not-matching child is still controlled by it.",
+    "C04": "Also generated: the parent replaced by an object with another selector; an owned child relabelled; a co-owner reference added to the object of a chosen request right before it. Negative-only selectors with unlabeled children; a 503 on the fresh parent read before an adoption. Orphaned children and ControllerRevisions that are terminating (held by a finalizer). Obligation side of release: after a succeeded sync of a live parent with a current cache no observed owned-but-not-matching child is still controlled by it. Rolling controllers whose hook labels children after the selector it is shown, with the selector edited in place mid-rollout and a child deleted; in every variant no child may be born with labels the worked-on parent's selector does not satisfy.",
     "C06": "Also generated: desired children with a status stanza, hook-set annotations or an explicitly empty list; an injected name-keyed list entry; someone already setting the field (and value) the hook is about to add; debug-verbosity logging.",
     "C07": "Also generated: hooks without any status; mixed matchLabels/matchExpressions selectors; condition styles of healthy children (timestamps with and without zone, a malformed neighbour condition). Purely additive edits of a revisioned field (a key appears / disappears).",
     "C08": "Also generated: a second rolling kind whose children share the names of the first (liveness rules only); mixed selectors; observedGeneration and condition styles. Additive edits as first or second change; rollbacks.",
